@@ -368,20 +368,27 @@ func shouldRespondDelta(con *Connection, request *discovery.DeltaDiscoveryReques
 		errCode := codes.Code(request.ErrorDetail.Code)
 		deltaLog.Warnf("ADS:%s: ACK ERROR %s %s:%s", stype, con.ID(), errCode.String(), request.ErrorDetail.GetMessage())
 		xds.IncrementXDSRejects(request.TypeUrl, con.proxy.ID, errCode.String())
+		watched := false
 		con.proxy.UpdateWatchedResource(request.TypeUrl, func(wr *model.WatchedResource) *model.WatchedResource {
 			if wr == nil {
 				// NACK for a type that is not watched on this stream; there is nothing to record.
 				return nil
 			}
+			watched = true
 			wr.LastError = request.ErrorDetail.GetMessage()
 			return wr
 		})
-		if len(request.ResourceNamesSubscribe) == 0 && len(request.ResourceNamesUnsubscribe) == 0 {
-			return false
+		if watched {
+			if len(request.ResourceNamesSubscribe) == 0 && len(request.ResourceNamesUnsubscribe) == 0 {
+				return false
+			}
+			// The response is rejected, but a delta client sends each subscription change exactly once and may
+			// attach it to any request, including a NACK. The change is handled like a spontaneous request below.
+			detachedSubChange = true
 		}
-		// The response is rejected, but a delta client sends each subscription change exactly once and may
-		// attach it to any request, including a NACK. The change is handled like a spontaneous request below.
-		detachedSubChange = true
+		// Without a watch the rejected response was sent on a previous stream (a NACK the client could not send
+		// before that stream broke): on this stream it is the first request for the type, also when it subscribes
+		// the legacy way (no resource_names_subscribe). It is handled as a reconnect below (previousInfo == nil).
 	}
 
 	deltaLog.Debugf("ADS:%s REQUEST %v: sub:%v unsub:%v initial:%v", stype, con.ID(),
